@@ -99,6 +99,54 @@ def showScalar : Scalar → String
   | .cdata _ raw => "c:" ++ showHex raw
   | .strct t raw => s!"t:{t}:" ++ showHex raw
 
+/-! the clauses of `RoundHyp` (Proofs/ValidatorsFloat.lean) evaluated at the operands of one case: the hypotheses
+the float theorems rest on are about the opaque `roundMag`; here the compiled body is held against them -/
+def hypAtDouble (d : Nat) : List (String × Bool) :=
+  match decodeMag fmt64 (d % 2 ^ 63) with
+  | .fin m e =>
+    let r := roundMag fmt32 m e
+    [("nearest32", decide (r ≥ fmt32.infPat) || isNearestMag fmt32 (scaled m e) r),
+     ("overflow32", !overflowsMag fmt32 (scaled m e) || decide (r ≥ fmt32.infPat))]
+  | _ => []
+
+def hypAtInt (n : Int) : List (String × Bool) :=
+  let a := n.natAbs
+  let r := roundMag fmt64 a 0
+  [("nearest64", decide (r ≥ fmt64.infPat) || isNearestMag fmt64 (scaled a 0) r),
+   ("overflow64", !overflowsMag fmt64 (scaled a 0) || decide (r ≥ fmt64.infPat))] ++
+  (if a ≤ 2 ^ 53 then [("intExact", decide (r < fmt64.infPat) && magValue fmt64 r == scaled a 0)]
+   else if r < fmt64.infPat then
+     (match decodeMag fmt64 r with
+      | .fin m e => [("bigIntNarrow", decide (roundMag fmt32 m e ≥ fmt32.infPat) || !overflowsMag fmt32 (scaled a 0))]
+      | _ => [])
+   else []) ++
+  (match ofInt n with | some d => hypAtDouble d | none => [])
+
+def hypAtF32 (p : Nat) : List (String × Bool) :=
+  if p % 2 ^ 31 < fmt32.infPat then
+    match decodeMag fmt32 (p % 2 ^ 31) with
+    | .fin m e =>
+      let r := roundMag fmt64 m e
+      [("widenExact", decide (r < fmt64.infPat) && magValue fmt64 r == scaled m e)]
+    | _ => []
+  else []
+
+def hypAtScalar : Scalar → List (String × Bool)
+  | .flt b => hypAtDouble b
+  | .int n => hypAtInt n
+  | .bool t => hypAtInt (if t then 1 else 0)
+  | _ => []
+
+def hypAtCase (ty : FTy) (v : PyVal) (post : Bytes) : List (String × Bool) :=
+  match ty.vk with
+  | .flt k =>
+    let xs : List Scalar := match v with | .sc s => [s] | _ => (match items v with | .ok l => l | .error _ => [])
+    xs.flatMap hypAtScalar ++
+    (match k with
+     | .f32 => (chunks 4 (post.length / 4) post).flatMap fun c => hypAtF32 (fromLE c)
+     | .f64 => [])
+  | _ => []
+
 structure Case where
   id : String := ""
   en : Bool := true
@@ -174,7 +222,14 @@ def finishSet (c : Case) : List String :=
       | some l =>
         if l == c.rb then [] else
           [s!"{c.id} CORR diff [canon] canon=[{joinSp (l.map showScalar)}] impl=[{joinSp (c.rb.map showScalar)}]"]
-  [corr] ++ corrRb ++ corrMsg ++ corrCanon ++ [s!"{c.id} PROP C09 {prop}", s!"{c.id} PROP TAG {tag}"]
+  -- projection `roundHyp`: the named hypotheses about the rounding function, at this case's operands
+  let corrHyp :=
+    match firstFalse (hypAtCase c.ty c.val c.post) with
+    | some h => [s!"{c.id} CORR diff [roundHyp] hypothesis {h} of RoundHyp is false at an operand of this case"]
+    | none => []
+  let nHyp := (hypAtCase c.ty c.val c.post).length
+  [corr] ++ corrRb ++ corrMsg ++ corrCanon ++ corrHyp ++
+    [s!"{c.id} PROP C09 {prop}", s!"{c.id} PROP TAG {tag}"] ++ (if nHyp > 0 then [s!"{c.id} PROP HYPS {nHyp}"] else [])
 
 def showFlags (l : List Bool) : String := joinSp (l.map fun b => if b then "1" else "0")
 
